@@ -667,6 +667,25 @@ func c07HostLoop(form int, tw bool) core.Result {
 }
 
 func c07Run(c core.Case) core.Result {
+	if c.Fam == "macrotwice" {
+		// a macro called repeatedly with equal arguments: its parameters are bound and its body is run for each call
+		// (a counting callback inside the body shows it), and the parameter is undefined again after each
+		n := c.N[0]
+		calls := 0
+		env := c07Env()
+		env.Functions["count"] = func(ctx stick.Context, args ...stick.Value) stick.Value { calls++; return calls }
+		src := "{% macro m(x) %}<{{ x }}:{{ count() }}:{{ probe('x') }}>{% endmacro %}{% for i in 1.." + itoa(n) + " %}{{ _self.m('k') }}{{ probe('x') }}{% endfor %}|{{ _self.m('k') }}{{ _self.m('k') }}"
+		want := ""
+		for i := 1; i <= n; i++ {
+			want += "<k:" + itoa(i) + ":D>U"
+		}
+		want += "|<k:" + itoa(n+1) + ":D><k:" + itoa(n+2) + ":D>"
+		out, err, pan := tryExec(env, src, nil)
+		if pan != "" || err != nil || out != want {
+			return core.Violation("scoping", fmt.Sprintf("%q renders ...%q (%v %s), want ...%q", src, tail(out, 60), err, pan, tail(want, 60)))
+		}
+		return core.Okay(true, itoa(n))
+	}
 	if c.Fam == "hostloop" {
 		return c07HostLoop(c.N[0], c.N[1] == 1)
 	}
@@ -822,6 +841,9 @@ func c07Levels(tier string) []core.Level {
 						}
 					}
 				}
+			}
+			for _, n := range []int{1, 2, 3, 5, 100, 101, 150} {
+				emit(core.Case{Fam: "macrotwice", N: []int{n}})
 			}
 			// a context entry of the host named "loop": 5 templates x core / twig x Execute / ExecuteSafe
 			for form := 0; form < 5; form++ {
